@@ -4,7 +4,7 @@
 # usage: confirm_seeds.sh C07   (worktree /tmp/seed/C07 with _seed/m1, _seed/m2)
 P=$1; WT=${SEED_ROOT:-/tmp/seed}/$P
 cd $WT || exit 2
-for m in m1 m2 m3; do
+for m in m1 m2 m3 m4; do
   D=$WT/_seed/$m
   [ -f $D/patch.diff ] || continue
   git checkout -q -- mosaik
